@@ -1,117 +1,3 @@
-(* P_Imp.v — the hand-written model of request_line::parse_char (M_Parse.rl_parse_char) computes, for every state,
-   every character and every limit configuration, exactly what the body of the C++ function computes - the body as
-   translated from clang's AST on this run (Gen_Parse.v), under the meaning of statements defined in M_Imp.v. *)
-From Via Require Import M_Char M_Parse M_Imp Gen_Parse.
-From Coq Require Import List NArith Bool Lia.
-Import ListNotations.
-Local Open Scope N_scope.
-Arguments nlen : simpl never.
-Arguments snoc : simpl never.
-
-Definition rl_store (r : req_line) : store :=
-  mk_store (rl_st_index (rl_state r)) [rl_method r; rl_uri r] [rl_ws r; rl_major r; rl_minor r; b2n (rl_valid r); b2n (rl_fail r)].
-
-Definition rl_lim (L : limits) (k : nat) : N := nth k [max_uri L; max_method L; max_ws L] 0.
-
-Definition rl_src (L : limits) : stmt := if strict_crlf L then rl_src_strict else rl_src_lax.
-
-Ltac flags := repeat match goal with
-  | H : context [1 =? 0] |- _ => change (1 =? 0) with false in H
-  | H : context [0 =? 0] |- _ => change (0 =? 0) with true in H
-  end; cbn [negb andb orb] in *; congruence.
-
-Ltac norm := cbn -[N.ltb N.eqb N.leb N.add N.mul N.sub nlen snoc isupper isblank isdigit isxdigit is_end_of_line is_token tolower size_of_hex digit_val].
-Ltac norm_all := cbn -[N.ltb N.eqb N.leb N.add N.mul N.sub nlen snoc isupper isblank isdigit isxdigit is_end_of_line is_token tolower size_of_hex digit_val] in *.
-
-Ltac split_one := match goal with |- context [if ?b then _ else _] => destruct b eqn:? end.
-
-Ltac split_ifs := repeat match goal with |- context [if ?b then _ else _] => destruct b eqn:? end.
-
-Theorem rl_parse_char_is_the_source L r c :
-  run_body (rl_lim L) c (rl_src L) (rl_store r) = (rl_store (fst (rl_parse_char L r c)), snd (rl_parse_char L r c)).
-Proof.
-  unfold rl_src, rl_parse_char, expect_char. destruct r as [m u ma mi st ws v f]. cbn [rl_state rl_method rl_uri rl_major rl_minor rl_ws].
-  destruct (strict_crlf L) eqn:Es; destruct st;
-    unfold run_body, rl_src_strict, rl_src_lax, rl_store;
-    norm;
-    unfold rl_lim; cbn [nth];
-    split_ifs; norm; try reflexivity;
-    try (cbn [negb andb orb] in *; congruence).
-Qed.
-
-(* ---- response_line ---- *)
-
-Definition sl_store (r : rsp_line) : store :=
-  mk_store (sl_st_index (sl_state r)) [sl_reason r] [sl_ws r; sl_major r; sl_minor r; sl_status r; b2n (sl_status_read r); b2n (sl_valid r); b2n (sl_fail r)].
-Definition sl_lim (L : limits) (k : nat) : N := nth k [max_status L; max_reason L; max_ws L] 0.
-Definition sl_src (L : limits) : stmt := if strict_crlf L then sl_src_strict else sl_src_lax.
-
-Theorem sl_parse_char_is_the_source L r c :
-  run_body (sl_lim L) c (sl_src L) (sl_store r) = (sl_store (fst (sl_parse_char L r c)), snd (sl_parse_char L r c)).
-Proof.
-  unfold sl_src, sl_parse_char, sl_expect, sl_cr_case. destruct r as [st rs ma mi s ws sr v f]. cbn [sl_state sl_status sl_reason sl_major sl_minor sl_ws sl_status_read].
-  destruct (strict_crlf L) eqn:Es; destruct s; destruct sr;
-    unfold run_body, sl_src_strict, sl_src_lax, sl_store, b2n;
-    norm;
-    unfold sl_lim, digit_val; cbn [nth];
-    repeat (split_ifs; norm); try reflexivity;
-    try (cbn [negb andb orb] in *; congruence); try (norm_all; flags).
-Qed.
-
-(* ---- field_line ---- *)
-Definition fl_store (f : field) : store :=
-  mk_store (fl_st_index (fl_state f)) [fl_name f; fl_value f] [fl_length f; fl_ws f; b2n (fl_fail f)].
-Definition fl_lim (L : limits) (k : nat) : N := nth k [max_line L; max_ws L] 0.
-Definition fl_src (L : limits) : stmt := if strict_crlf L then fl_src_strict else fl_src_lax.
-
-Theorem fl_parse_char_is_the_source L f c :
-  run_body (fl_lim L) c (fl_src L) (fl_store f) = (fl_store (fst (fl_parse_char L f c)), snd (fl_parse_char L f c)).
-Proof.
-  unfold fl_src, fl_parse_char, fl_value_case. destruct f as [nm vl len ws s fa]. cbn [fl_state fl_name fl_value fl_length fl_ws fl_fail].
-  destruct (strict_crlf L) eqn:Es; destruct s;
-    unfold run_body, fl_src_strict, fl_src_lax, fl_store, fl_set_state; norm; unfold fl_lim; cbn [nth];
-    (* the length check in front of the switch decides which case the switch takes *)
-    destruct (max_line L <? len + 1) eqn:Elen; norm;
-    repeat (split_ifs; norm); try reflexivity;
-    try (cbn [negb andb orb] in *; congruence); try (norm_all; flags).
-Qed.
-
-
-(* ---- chunk_header ---- *)
-Definition ck_store (k : chunk_hdr) : store :=
-  mk_store (ck_st_index (ck_state k)) [ck_hex k; ck_ext k] [ck_length k; ck_ws k; ck_size k; b2n (ck_size_read k); ck_max k; b2n (ck_valid k); b2n (ck_fail k)].
-Definition ck_lim (L : limits) (k : nat) : N := nth k [max_line L; max_ws L] 0.
-Definition ck_src (L : limits) : stmt := if strict_crlf L then ck_src_strict else ck_src_lax.
-
-(* the length check in front of the switch, for any rest of the body *)
-Lemma run_body_length_check lim c e rest st strs n nums :
-  run_body lim c (SSeq (SIf (BCmp CGt (NPreInc 0%nat) (NLim 0%nat)) (SState e) SSkip) rest) (mk_store st strs (n :: nums)) =
-  if lim 0%nat <? n + 1 then run_body lim c rest (mk_store e strs (n + 1 :: nums))
-  else run_body lim c rest (mk_store st strs (n + 1 :: nums)).
-Proof.
-  unfold run_body. cbn [exec beval neval cmp_eval get_num set_num s_nums s_strs s_state nth set_nth set_state].
-  destruct (lim 0%nat <? n + 1); reflexivity.
-Qed.
-
-Theorem ck_parse_char_is_the_source L k c :
-  run_body (ck_lim L) c (ck_src L) (ck_store k) = (ck_store (fst (ck_parse_char L k c)), snd (ck_parse_char L k c)).
-Proof.
-  unfold ck_src, ck_parse_char, ck_size_case, ck_ext_case. destruct k as [mx sz len ws hx ex s sr v f]. cbn [ck_state ck_max ck_size ck_length ck_ws ck_hex ck_ext ck_size_read].
-  destruct (strict_crlf L) eqn:Es; unfold ck_src_strict, ck_src_lax, ck_store; cbn [s_nums];
-    rewrite run_body_length_check; unfold ck_lim at 1; cbn [nth];
-    destruct (max_line L <? len + 1) eqn:Elen; destruct s; destruct sr;
-    cbv delta [run_body] beta; norm; unfold ck_lim; cbn [nth]; change MAX_SIZE_DIGITS with 16;
-    repeat (split_one; norm); try reflexivity;
-    try (cbn [negb andb orb] in *; congruence); try (norm_all; flags).
-Qed.
-
-(* ---- clear(): what a parser is reset to between messages is what the model starts the next message from ---- *)
-Theorem rl_clear_is_the_source lim c r : exec lim c rl_clear_src (rl_store r) = (ONormal, rl_store rl_init).
-Proof. destruct r; reflexivity. Qed.
-Theorem sl_clear_is_the_source lim c r : exec lim c sl_clear_src (sl_store r) = (ONormal, sl_store sl_init).
-Proof. destruct r; reflexivity. Qed.
-Theorem fl_clear_is_the_source lim c f : exec lim c fl_clear_src (fl_store f) = (ONormal, fl_store fl_init).
-Proof. destruct f; reflexivity. Qed.
-(* chunk_header::clear keeps the configured maximum chunk size and resets everything else *)
-Theorem ck_clear_is_the_source lim c k : exec lim c ck_clear_src (ck_store k) = (ONormal, ck_store (ck_init (ck_max k))).
-Proof. destruct k; reflexivity. Qed.
+(* P_Imp.v — the character-level functions of the four line parsers are the translated source: gathers P_ImpR.v (request
+   line), P_ImpS.v (status line), P_ImpF.v (field line) and P_ImpK.v (chunk-size line), which are compiled in parallel. *)
+From Via Require Export P_Imp0 P_ImpR P_ImpS P_ImpF P_ImpK.
